@@ -614,28 +614,34 @@ Qed.
 
 (* ---------- from positions to providers ---------- *)
 Definition nrp (p : prov) : bool := negb (is_reorder p).
-Definition nr_pids (l : list prov) : list nat := map p_pid (filter nrp l).
-Definition pidof (funcs : list prov) (i : nat) : nat := match getp funcs i with Some p => p_pid p | None => 0 end.
+Section Key.
+  Variable KT : Type.
+  Variable key : prov -> KT.                (* what is observed of a provider *)
+  Variable dflt : KT.
+  Hypothesis key_cannot : forall p, key (set_cannot true p) = key p.
+
+Definition nr_keys (l : list prov) : list KT := map key (filter nrp l).
+Definition keyof (funcs : list prov) (i : nat) : KT := match getp funcs i with Some p => key p | None => dflt end.
 
 Lemma pick_nr funcs l :
-  nr_pids (flat_map (fun i => match getp funcs i with Some p => [p] | None => [] end) l)
-  = map (pidof funcs) (filter (not_reorder funcs) l).
+  nr_keys (flat_map (fun i => match getp funcs i with Some p => [p] | None => [] end) l)
+  = map (keyof funcs) (filter (not_reorder funcs) l).
 Proof.
-  unfold nr_pids. induction l as [|i r IH]; cbn [flat_map filter]; [reflexivity|].
-  rewrite filter_app, map_app, IH. unfold not_reorder at 2, pidof at 2. destruct (getp funcs i) as [p|] eqn:Ep; [|reflexivity].
+  unfold nr_keys. induction l as [|i r IH]; cbn [flat_map filter]; [reflexivity|].
+  rewrite filter_app, map_app, IH. unfold not_reorder at 2, keyof at 2. destruct (getp funcs i) as [p|] eqn:Ep; [|reflexivity].
   cbn [filter]. unfold nrp at 1. destruct (negb (is_reorder p)); cbn [map app]; [|reflexivity].
-  unfold pidof. rewrite Ep. reflexivity.
+  unfold keyof. rewrite Ep. reflexivity.
 Qed.
 
 Lemma pick_cannot_nr funcs l :
-  nr_pids (flat_map (fun i => map (set_cannot true) (match getp funcs i with Some p => [p] | None => [] end)) l)
-  = map (pidof funcs) (filter (not_reorder funcs) l).
+  nr_keys (flat_map (fun i => map (set_cannot true) (match getp funcs i with Some p => [p] | None => [] end)) l)
+  = map (keyof funcs) (filter (not_reorder funcs) l).
 Proof.
-  unfold nr_pids. induction l as [|i r IH]; cbn [flat_map filter]; [reflexivity|].
-  rewrite filter_app, map_app, IH. unfold not_reorder at 2, pidof at 2. destruct (getp funcs i) as [p|] eqn:Ep; [|reflexivity].
+  unfold nr_keys. induction l as [|i r IH]; cbn [flat_map filter]; [reflexivity|].
+  rewrite filter_app, map_app, IH. unfold not_reorder at 2, keyof at 2. destruct (getp funcs i) as [p|] eqn:Ep; [|reflexivity].
   cbn [map filter]. unfold nrp at 1. change (is_reorder (set_cannot true p)) with (is_reorder p).
   destruct (negb (is_reorder p)); cbn [map app]; [|reflexivity].
-  unfold pidof. rewrite Ep. reflexivity.
+  unfold keyof. rewrite Ep, key_cannot. reflexivity.
 Qed.
 
 Lemma idx_pick (funcs : list prov) :
@@ -680,8 +686,8 @@ Proof.
 Qed.
 
 (* ---------- Reorder keeps the listed order of the providers that are not marked Reorder ---------- *)
-Theorem reorder_keeps_listed_order te funcs funcs' :
-  reorder_funcs te funcs = Ok funcs' -> nr_pids funcs' = nr_pids funcs.
+Theorem reorder_keeps_listed_order_key te funcs funcs' :
+  reorder_funcs te funcs = Ok funcs' -> nr_keys funcs' = nr_keys funcs.
 Proof.
   unfold reorder_funcs. destruct (negb (existsb is_reorder funcs)); [intros H; inversion H; reflexivity|].
   set (n := length funcs). set (idx := seq_from 0 n).
@@ -738,8 +744,8 @@ Proof.
   match type of H with (if ?c then _ else _) = _ => destruct c; [|discriminate] end.
   inversion H; subst funcs'; clear H.
   set (missing := filter (fun i => negb (memb i (t_done xf))) idx).
-  unfold nr_pids at 1. rewrite filter_app, map_app.
-  change (map p_pid (filter nrp ?l)) with (nr_pids l).
+  unfold nr_keys at 1. rewrite filter_app, map_app.
+  change (map key (filter nrp ?l)) with (nr_keys l).
   rewrite pick_nr, pick_cannot_nr, <- map_app, <- filter_app.
   rewrite <- (idx_pick funcs) at 3. rewrite pick_nr. f_equal. fold n. fold idx.
   rewrite <- Gcs. fold cs.
@@ -753,5 +759,21 @@ Proof.
   - intros i Hi. apply negb_true_iff. destruct (memb i (t_done xf)) eqn:E; [|reflexivity].
     apply AllocProofs.memb_true_in in E. exfalso. exact (Hnd i Hi E).
   - intros i Hi. apply negb_false_iff. apply AllocProofs.memb_true_in. apply Hdn, Hi.
+Qed.
+End Key.
+
+Definition nr_pids (l : list prov) : list nat := map p_pid (filter nrp l).
+
+Theorem reorder_keeps_listed_order te funcs funcs' :
+  reorder_funcs te funcs = Ok funcs' -> nr_pids funcs' = nr_pids funcs.
+Proof. apply (reorder_keeps_listed_order_key nat p_pid 0). intros p. reflexivity. Qed.
+
+(* ... as providers, not only as ids: classification, flows and annotations included *)
+Theorem reorder_keeps_listed_providers te funcs funcs' :
+  reorder_funcs te funcs = Ok funcs' -> map p_s (filter nrp funcs') = map p_s (filter nrp funcs).
+Proof.
+  destruct funcs as [|p0 r].
+  - unfold reorder_funcs. cbn. intros H. injection H as <-. reflexivity.
+  - apply (reorder_keeps_listed_order_key sprov p_s (p_s p0)). intros p. reflexivity.
 Qed.
 Print Assumptions reorder_keeps_listed_order.
